@@ -136,6 +136,58 @@ def gen_receiver(rng, g, malformed=False):
     return dict(xyz=xyz, az=az, el=el, fac=rot(az, el), kinds=kinds)
 
 
+BATCH_KINDS = ['random', 'pm_az', 'pm_el', 'antiparallel', 'same', 'crossed4', 'guard_mix']
+
+
+def gen_batch(rng, g, kind=None):
+    """2..6 receivers for ONE get_receiver call.  Adversarial kinds make the
+    rotation factors of one Cartesian component cancel in the sum over the
+    receivers although every single factor is far above the guard."""
+    kind = kind or rng.choice(BATCH_KINDS)
+    a = rng.randint(1, 890) / 10.
+    e = rng.randint(1, 890) / 10.
+    if kind == 'random':
+        angs = [gen_angle(rng) for _ in range(rng.randint(2, 6))]
+    elif kind == 'pm_az':            # sin(az) cancels: y dropped by abs(sum)
+        angs = [(a, e * (rng.random() < 0.5)), (-a, 0.)]
+        angs[1] = (-a, angs[0][1])
+        if rng.random() < 0.4:
+            angs += [(a, angs[0][1]), (-a, angs[0][1])]
+    elif kind == 'pm_el':            # sin(el) cancels: z dropped
+        angs = [(a, e), (a, -e)]
+        if rng.random() < 0.4:
+            angs += [(a + 10., e), (a + 10., -e)]
+    elif kind == 'antiparallel':     # all three cancel
+        angs = [(a, e), (a - 180., -e)]
+        if rng.random() < 0.3:
+            angs += [(0., 0.), (180., 0.)]
+    elif kind == 'same':
+        angs = [(a, e)] * rng.randint(2, 4)
+    elif kind == 'crossed4':         # x and y cancel
+        angs = [(a, 0.), (a + 90., 0.), (a - 180., 0.), (a - 90., 0.)]
+    else:                            # guard_mix: only tiny / zero factors in one component
+        angs = [(0., 1e-9), (0., -1e-9), (0., 0.)][:rng.randint(2, 3)] + \
+               ([(0., 1e-8)] if rng.random() < 0.5 else [])
+    rng.shuffle(angs)
+    recs = []
+    for (az, el) in angs:
+        r = gen_receiver(rng, g, malformed=(rng.random() < 0.1))
+        r['az'], r['el'], r['fac'] = float(az), float(el), rot(az, el)
+        recs.append(r)
+    form = rng.choice(['tuple', 'list'])
+    return dict(kind=kind, recs=recs, form=form)
+
+
+def cancelling_components(recs):
+    """components with a factor above the guard whose SUM over the batch is below it"""
+    out = []
+    for c in range(3):
+        fs = [r['fac'][c] for r in recs]
+        if any(abs(f) > EPS for f in fs) and abs(sum(fs)) <= EPS:
+            out.append(c)
+    return out
+
+
 def gen_field(rng, shape, cplx, big=None):
     f = K.rand_field(rng, shape, cplx, pec=False)
     if big is not None:
@@ -182,6 +234,11 @@ def rx_args(r):
     return ' '.join(V.q(v) for v in list(r['xyz']) + list(r['fac']))
 
 
+def coq_batch(b):
+    return '[' + '; '.join('((%s, %s, %s), (%s, %s, %s))' % tuple(V.q(v) for v in list(r['xyz']) + list(r['fac']))
+                           for r in b['recs']) + ']'
+
+
 def parse_opt(ans):
     """'(1, (n, d))' -> Fraction, '(0, (0, 1))' -> None."""
     import fractions
@@ -217,8 +274,12 @@ def electric_group(rng, gi, thorough):
             if 0 < abs(r['fac'][c]) < 1e-7:
                 big = c
     f = gen_field(rng, g['shape'], cplx, big)
-    batch = [gen_receiver(rng, g, malformed=(rng.random() < 0.15)) for _ in range(3)]
-    return dict(kind='electric', g=g, cplx=cplx, f=f, recs=recs, batch=batch, big=big)
+    batches = [gen_batch(rng, g, 'random' if i == 0 else None) for i in range(3)]
+    for b in batches:
+        if b['kind'] == 'guard_mix' and big is None:
+            big = 2
+            f[2] = f[2] * 2.0**40
+    return dict(kind='electric', g=g, cplx=cplx, f=f, recs=recs, batches=batches, big=big)
 
 
 def electric_text(c):
@@ -229,11 +290,10 @@ def electric_text(c):
         for p in parts:
             L.append(f"Eval vm_compute in oo (get_receiver Qle_bool nx ny nz ndx ndy ndz eps true "
                      f"fx{p} fy{p} fz{p} {rx_args(r)}).")
-    rs = '[' + '; '.join('((%s, %s, %s), (%s, %s, %s))' % tuple(V.q(v) for v in list(r['xyz']) + list(r['fac']))
-                         for r in c['batch']) + ']'
-    for p in parts:
-        L.append(f"Eval vm_compute in map oo (get_receiver_batch Qle_bool nx ny nz ndx ndy ndz eps true "
-                 f"fx{p} fy{p} fz{p} {rs}).")
+    for b in c['batches']:
+        for p in parts:
+            L.append(f"Eval vm_compute in map oo (get_receiver_batch Qle_bool nx ny nz ndx ndy ndz eps true "
+                     f"fx{p} fy{p} fz{p} {coq_batch(b)}).")
     nx, ny, nz = g['shape']
     for r in c['recs']:
         L.append(f"Eval vm_compute in match point_vector Qle_bool nx ny nz ndx ndy ndz {rx_args(r)} with "
@@ -243,10 +303,14 @@ def electric_text(c):
     return '\n'.join(L) + '\n'
 
 
-def impl_receiver(fld, recs):
+def impl_receiver(fld, recs, form='tuple', magnetic=False):
+    import emg3d
     from emg3d import fields
     if isinstance(recs, dict):
         co = tuple(recs['xyz']) + (recs['az'], recs['el'])
+    elif form == 'list':
+        Rx = emg3d.RxMagneticPoint if magnetic else emg3d.RxElectricPoint
+        co = [Rx(tuple(r['xyz']) + (r['az'], r['el'])) for r in recs]
     else:
         co = tuple(np.array([r['xyz'][d] for r in recs]) for d in range(3)) + (
             np.array([r['az'] for r in recs]), np.array([r['el'] for r in recs]))
@@ -297,14 +361,23 @@ def electric_check(c, out, dis, hist, seen):
             hist['pos_' + kd] += 1
         if any(kd != 'generic' for kd in r['kinds']) or guard:
             seen.add(('rx', g['shape'], key))
-    bvals = [parse_opt(ans[k + p]) for p in range(parts)]
-    k += parts
-    impl_b = impl_receiver(fld, c['batch'])
-    for i, r in enumerate(c['batch']):
-        cmp_rx(r, [bvals[p][i] for p in range(parts)], impl_b[i],
-               'fields.get_receiver(linear, several receivers) differs from get_receiver_batch')
-        nevals += 1
-    hist['rx_batch'] += 1
+    for b in c['batches']:
+        bvals = [parse_opt(ans[k + p]) for p in range(parts)]
+        k += parts
+        impl_b = impl_receiver(fld, b['recs'], b['form'])
+        canc = cancelling_components(b['recs'])
+        for i, r in enumerate(b['recs']):
+            cmp_rx(r, [bvals[p][i] for p in range(parts)], impl_b[i],
+                   f"fields.get_receiver(linear, {len(b['recs'])} receivers in one call, {b['form']} form, "
+                   f"orientation set '{b['kind']}') differs from get_receiver_batch")
+            nevals += 1
+        hist['batch_kind_' + b['kind']] += 1
+        hist['batch_size_%d' % len(b['recs'])] += 1
+        hist['batch_form_' + b['form']] += 1
+        if canc:
+            hist['batch_with_cancelling_component'] += 1
+        if b['kind'] != 'random':
+            seen.add(('batch', g['shape'], b['kind'], len(b['recs']), b['form'], tuple(canc)))
     # point vectors
     shp = FSH_E(g['shape'])
     for r in c['recs']:
@@ -468,7 +541,9 @@ def magnetic_group(rng):
     freq = -K.dy_pos(rng) if laplace else K.dy_pos(rng)
     e = gen_field(rng, g['shape'], cplx)
     recs = [gen_receiver(rng, g, malformed=(rng.random() < 0.2)) for _ in range(4)]
-    return dict(kind='magnetic', g=g, cplx=cplx, freq=freq, e=e, recs=recs)
+    batches = [gen_batch(rng, g, rng.choice(['pm_az', 'pm_el', 'antiparallel', 'crossed4', 'random']))
+               for _ in range(2)]
+    return dict(kind='magnetic', g=g, cplx=cplx, freq=freq, e=e, recs=recs, batches=batches)
 
 
 def magnetic_text(c):
@@ -492,6 +567,10 @@ def magnetic_text(c):
         for p in parts:
             L.append(f"Eval vm_compute in oo (get_receiver Qle_bool nx ny nz ndx ndy ndz eps false "
                      f"Hx{p} Hy{p} Hz{p} {rx_args(r)}).")
+    for b in c['batches']:
+        for p in parts:
+            L.append(f"Eval vm_compute in map oo (get_receiver_batch Qle_bool nx ny nz ndx ndy ndz eps false "
+                     f"Hx{p} Hy{p} Hz{p} {coq_batch(b)}).")
     # adjoint source vector: curl^T of the face sampling vector
     for r in c['recs']:
         L.append(f"Eval vm_compute in match face_vector Qle_bool nx ny nz ndx ndy ndz {rx_args(r)} with "
@@ -541,6 +620,32 @@ def magnetic_check(c, out, dis, hist, seen):
                         'impl': str(impl), 'model': str(mod)})
         else:
             seen.add(('mag', g['shape'], tuple(r['kinds']), c['freq'] < 0))
+    for b in c['batches']:
+        bvals = [parse_opt(ans[k + p]) for p in range(parts)]
+        k += parts
+        impl_b = impl_receiver(hfield, b['recs'], b['form'], magnetic=True)
+        canc = cancelling_components(b['recs'])
+        for i, r in enumerate(b['recs']):
+            vals = [bvals[p][i] for p in range(parts)]
+            impl = impl_b[i]
+            n += 1
+            if any(v is None for v in vals):
+                ok = bool(np.isnan(impl))
+                mod = 'nan'
+            else:
+                hp = complex(float(vals[0]), float(vals[1]) if parts > 1 else 0.0)
+                mod = hp if c['freq'] < 0 else hp / 1j
+                ok = (not np.isnan(impl)) and abs(impl - mod) <= 1e-9 * max(
+                    abs(mod), hscale * sum(abs(x) for x in r['fac']), 1e-300)
+            if not ok:
+                dis.append({'what': f"get_magnetic_field + get_receiver(linear, {len(b['recs'])} receivers in one "
+                                    f"call, {b['form']} form, orientation set '{b['kind']}') differs from "
+                                    f"get_receiver_batch on faces",
+                            'case': brief_rx(g, r), 'frequency': c['freq'], 'impl': str(impl), 'model': str(mod)})
+        hist['mag_batch_kind_' + b['kind']] += 1
+        if canc:
+            hist['mag_batch_with_cancelling_component'] += 1
+        seen.add(('mag_batch', g['shape'], b['kind'], len(b['recs']), b['form'], tuple(canc)))
     shp = FSH_E(g['shape'])
     for r in c['recs']:
         a = ans[k]
@@ -614,7 +719,7 @@ def correspondence(ctx):
         'evaluations': evals,
         'distinct_nontrivial': len(seen),
         'rule': "groups of (random 2..5^3 grid with dyadic widths/origin, dense random dyadic real or complex "
-                "field, 6 receivers evaluated one per call + 3 in one call + the 6 point vectors); positions "
+                "field, 6 receivers evaluated one per call + 3 calls with 2..6 receivers each (tuple or list-of-Rx form; orientation sets: random, +-azimuth, +-elevation, anti-parallel, identical, crossed quadruple, guard mix -- the adversarial sets make one component's factors cancel in the sum although each is far above the guard) + the 6 point vectors); positions "
                 "per direction from {generic interior, on a node, on a cell centre, on node 1 / n-1, in an "
                 "outermost cell, on the boundary, outside}; ~25% of the receivers have at least one "
                 "non-interior coordinate (malformed stream); angles 45% random, else axis-aligned or within "
@@ -623,7 +728,7 @@ def correspondence(ctx):
                 "position kinds, factor classes) with a non-generic coordinate or a guarded factor, plus "
                 "distinct error / outer-cell point-vector cases. Kernel cases: _edge_curl_factor compiled and "
                 ".py_func vs the generated model on 1..3^3 shapes with pre-filled outputs. Magnetic groups: "
-                "mu_r = 1, Laplace or frequency domain, 4 receivers sampled through get_magnetic_field, and "
+                "mu_r = 1, Laplace or frequency domain, 4 receivers sampled through get_magnetic_field one per call + 2 multi-receiver calls with cancelling orientation sets, and "
                 "_point_vector_magnetic(frequency=None) vs -curl^T(face_vector) for interior positions",
         'samples': samples,
         'traces_validated_against_impl': evals,
@@ -748,6 +853,61 @@ def search_identity(np_seed):
     return None
 
 
+def search_batch(np_seed):
+    """Several receivers in ONE get_receiver call (tuple and list-of-Rx forms,
+    electric and magnetic): every receiver must still be the transpose of ITS
+    point source, also when the direction cosines of the batch cancel."""
+    import emg3d
+    from emg3d import fields
+    npr = np.random.RandomState(np_seed)
+    grid = _rand_problem(npr)
+    freq = float(npr.choice([1.0, -2.0]))
+    ef = emg3d.Field(grid, frequency=freq)
+    ef.field = npr.standard_normal(ef.field.size) + (
+        1j * npr.standard_normal(ef.field.size) if freq > 0 else 0)
+    model = emg3d.Model(grid, property_x=npr.uniform(0.1, 10, grid.shape_cells))
+    hf = fields.get_magnetic_field(model, ef)
+    a, e = float(npr.uniform(1, 89)), float(npr.uniform(1, 89))
+    sets = {
+        'pm_az': [(a, 0.), (-a, 0.)],
+        'pm_el': [(a, e), (a, -e)],
+        'antiparallel': [(a, e), (a - 180., -e)],
+        'crossed4': [(a, 0.), (a + 90., 0.), (a - 180., 0.), (a - 90., 0.)],
+        'tilted_pairs': [(a, e), (a, -e), (-a, e), (-a, -e)],
+        'random': [(float(npr.uniform(-180, 180)), float(npr.uniform(-90, 90)))
+                   for _ in range(int(npr.randint(2, 7)))],
+    }
+    base = {'np_seed': int(np_seed), 'kind': 'batch', 'shape': list(grid.shape_cells), 'frequency': freq,
+            'hx': [float.hex(float(v)) for v in grid.h[0]], 'hy': [float.hex(float(v)) for v in grid.h[1]],
+            'hz': [float.hex(float(v)) for v in grid.h[2]], 'origin': [float.hex(float(v)) for v in grid.origin]}
+    for name, angs in sets.items():
+        pos = [_rand_rx(npr, grid)[0] for _ in angs]
+        cos = [tuple(p) + ang for p, ang in zip(pos, angs)]
+        tup = tuple(np.array([c[d] for c in cos]) for d in range(5))
+        for magnetic, fld in ((False, ef), (True, hf)):
+            Rx = emg3d.RxMagneticPoint if magnetic else emg3d.RxElectricPoint
+            comps = [fld.fx, fld.fy, fld.fz]
+            sc = max(1.0, float(np.max(np.abs(fld.field))))
+            for form, arg in (('tuple', tup), ('list', [Rx(c) for c in cos])):
+                got = np.atleast_1d(np.asarray(fields.get_receiver(fld, arg, 'linear')))
+                for i, c in enumerate(cos):
+                    ov = oracle_vector(grid, c[:3], rot(c[3], c[4]), not magnetic)
+                    want = complex(sum(np.sum(ov[k] * comps[k]) for k in range(3)))
+                    if not magnetic:
+                        pv = fields._point_vector(grid, c)
+                        want2 = complex(np.sum(pv.field * fld.field))
+                        if abs(want - want2) > 1e-9 * sc:
+                            want = want2       # reported by search_identity; keep the impl's own vector here
+                    if not abs(complex(got[i]) - want) <= 1e-9 * sc:
+                        return dict(base, signature=('magnetic' if magnetic else 'electric') +
+                                    ' receivers sampled in one get_receiver call are not the transposes of '
+                                    'their point sources',
+                                    orientation_set=name, form=form, receiver_index=i,
+                                    receivers=[[float.hex(float(v)) for v in c[:3]] + [c[3], c[4]] for c in cos],
+                                    observed=str(complex(got[i])), required=str(want))
+    return None
+
+
 def search_reciprocity(np_seed, tol=1e-9):
     """Exchange an electric point source and an electric point receiver on a
     tiny solve; same for magnetic points."""
@@ -783,8 +943,8 @@ def search_reciprocity(np_seed, tol=1e-9):
     rba = complex(fields.get_receiver(fb, ca, 'linear'))
     scale = max(abs(rab), abs(rba), 1e-300)
     # bound: |<p_b, A^-1 r_a>| with relative residual <= tol; condition number of these tiny
-    # systems is small -> 1e4*tol relative is > 1000x the measured deviation (<= 5e-9)
-    if abs(rab - rba) > 1e4 * tol * scale:
+    # systems is small -> 1e5*tol relative is > 500x the measured deviation (<= 2e-7)
+    if abs(rab - rba) > 1e5 * tol * scale:
         return {'signature': ('magnetic' if magnetic else 'electric') + ' point source/receiver not reciprocal',
                 'np_seed': int(np_seed), 'n': n, 'source_a': list(ca), 'source_b': list(cb),
                 'observed': [str(rab), str(rba)], 'required': 'equal up to solver tolerance',
@@ -802,6 +962,13 @@ def search(ctx, broken):
             h['kind'] = 'identity'
             hits.append(h)
             break
+    nb = 12 if ctx.thorough else 5
+    if not hits:
+        for _ in range(nb):
+            h = search_batch(rng.randint(0, 2**31 - 1))
+            if h:
+                hits.append(h)
+                break
     worst = 0.0
     nrec = 20 if ctx.thorough else 8
     if not hits:
@@ -813,7 +980,8 @@ def search(ctx, broken):
             if h:
                 worst = max(worst, h['rel_diff'])
     ctx.notes.append(f"searcher: {n} random float problems (identity vs implementation and an independent numpy "
-                     f"oracle, electric and magnetic, NaN policy), {nrec} reciprocity solves "
+                     f"oracle, electric and magnetic, NaN policy), {nb} multi-receiver problems (6 orientation sets incl. "
+                     f"cancelling ones x electric/magnetic x tuple/list form), {nrec} reciprocity solves "
                      f"(worst relative deviation {worst:.2e}, tol 1e-9)")
     return hits
 
@@ -822,6 +990,8 @@ def replay(ctx, payload):
     fi = payload.get('failing_input')
     if not fi or 'np_seed' not in fi:
         return False
+    if fi.get('kind') == 'batch':
+        return search_batch(fi['np_seed']) is None
     if fi.get('kind') == 'reciprocity':
         h = search_reciprocity(fi['np_seed'])
         return bool(h is None or h.get('ok'))
